@@ -84,7 +84,7 @@ func c07Dir(t testing.TB) string {
 }
 
 func genC07Spec(rt *rapid.T) memsys.AssemblySpec {
-	spec := memsys.GenAssembly(rt, memsys.GenOpts{MaxOps: 30, WTMinLatency: 1, Bottoms: []string{"ideal", "banked", "dram"}})
+	spec := memsys.GenAssembly(rt, memsys.GenOpts{MaxOps: 30, Bottoms: []string{"ideal", "banked", "dram"}})
 	if rapid.Bool().Draw(rt, "pt") {
 		spec.PTLog2 = uint64(rapid.SampledFrom([]int{12, 14, 16}).Draw(rt, "ptLog2"))
 		spec.PTPages = rapid.IntRange(0, 6).Draw(rt, "ptPages")
